@@ -43,7 +43,7 @@ def _ident(tape):
 
 
 def _mkfn(name):
-    def f(tape):
+    def f(tape, c=0):
         return (tape,), (lambda r: r[0])
     f.__name__ = name
     return f
@@ -54,11 +54,33 @@ KIND = {"a": transform(_RAW["a"]), "b": transform(_RAW["b"]), "f": transform(_RA
         "x": transform(_RAW["x"], expand_transform=_RAW["xe"]),
         "g": transform(_RAW["g"], expand_transform=_RAW["ge"], final_transform=True),
         "xe": transform(_RAW["xe"]), "ge": transform(_RAW["ge"])}
-EXPANDS = {"x", "g"}
+EXPANDS = {"x", "g", "xp", "xk"}
+CFG = 7                        # the configuration value of the kinds "xp" (x(7)) and "xk" (x(c=7))
+
+
+def _name(t):
+    """kind of a pipeline entry: function name + 'p' / 'k' when bound to the positional / keyword configuration"""
+    n = t.tape_transform.__name__
+    if t.args == (CFG,) and not t.kwargs:
+        return n + "p"
+    if t.kwargs == {"c": CFG} and not t.args:
+        return n + "k"
+    if t.args or t.kwargs:
+        return f"{n}{t.args}{t.kwargs}"
+    return n
 
 
 def names(p):
-    return [t.tape_transform.__name__ for t in p]
+    return [_name(t) for t in p]
+
+
+def _obj(k, variant, exact=False):
+    """the object handed to the API for kind k (Transform, BoundTransform, or a transform called with its configuration)"""
+    if k == "xp":
+        return BoundTransform(KIND["x"], args=(CFG,)) if variant % 2 else KIND["x"](CFG)
+    if k == "xk":
+        return BoundTransform(KIND["x"], kwargs={"c": CFG}) if variant % 2 else KIND["x"](c=CFG)
+    return BoundTransform(KIND[k]) if (variant % 2 or exact) else KIND[k]
 
 
 def markers(p):
@@ -87,20 +109,25 @@ def apply_call(p, o, retained, variant):
             p.add_marker(m["l"], m["v"])
         return p, ""
     if op == "append":
-        p.append(BoundTransform(T) if variant % 2 else T)
+        p.append(_obj(k, variant))
         return p, ""
     if op == "addt":
-        p.add_transform(T)
+        if k == "xp":
+            p.add_transform(KIND["x"], CFG)
+        elif k == "xk":
+            p.add_transform(KIND["x"], c=CFG)
+        else:
+            p.add_transform(T)
         return p, ""
     if op == "iadd":
-        p += (BoundTransform(T) if variant % 2 else T)
+        p += _obj(k, variant)
         return p, ""
     if op == "add":
         retained.append((p, snapshot(p)))
-        return p + (BoundTransform(T) if variant % 2 else T), ""
+        return p + _obj(k, variant), ""
     if op == "radd":
         retained.append((p, snapshot(p)))
-        return (BoundTransform(T) if variant % 2 else T) + p, ""
+        return _obj(k, variant) + p, ""
     if op in ("iaddP", "addP", "extP"):
         q = _operand(o["P"], o["Pm"])
         retained.append((q, snapshot(q)))
@@ -116,13 +143,13 @@ def apply_call(p, o, retained, variant):
         p.extend([KIND[x] for x in o["P"]])
         return p, ""
     if op == "insert":
-        p.insert(i, BoundTransform(T) if variant % 2 else T)
+        p.insert(i, _obj(k, variant))
         return p, ""
     if op == "pop":
         r = p.pop() if i == NONE else p.pop(i)
-        return p, r.tape_transform.__name__
+        return p, _name(r)
     if op == "remove":
-        p.remove(BoundTransform(T) if variant % 2 else T)
+        p.remove(_obj(k, variant, exact=k in EXPANDS))      # (a bare Transform would remove every configuration of it)
         return p, ""
     if op == "mul":
         retained.append((p, snapshot(p)))
@@ -137,7 +164,7 @@ def apply_call(p, o, retained, variant):
             warnings.simplefilter("ignore")
             return p[a:b:s], ""
     if op == "get":
-        return p, p[i].tape_transform.__name__
+        return p, _name(p[i])
     if op == "addm":
         if i == NONE:
             p.add_marker(o["l"])
@@ -213,9 +240,13 @@ OPERANDS = '{[P |-> <<"b">>, Pm |-> <<[l |-> "q", v |-> 0]>>], [P |-> <<"xe","x"
 SLICES = "{<<1,99,1>>, <<0,1,1>>, <<99,-1,1>>, <<-2,99,1>>, <<1,2,1>>, <<0,99,1>>, <<99,99,2>>, <<99,99,-1>>, <<2,1,1>>, <<1,3,1>>}"
 
 
-def edit_defs(n_inits, small=False, sample=0):
-    return {"Inits": "{" + ", ".join(INITS[:n_inits]) + "}", "Kinds": '{"a","b","f","x","g"}' if not small else '{"a","f","x"}',
-            "RemKinds": '{"a","x","g"}' if not small else '{"a","x"}', "Labels": '{"m","n"}',
+KINDS = {"quick": ('{"a","f","x","g","xp","xk"}', '{"a","x","xp"}'), "full": ('{"a","b","f","x","g","xp","xk"}', '{"a","x","g","xp","xk"}'),
+         "small": ('{"a","f","x","xp"}', '{"a","xp"}')}
+
+
+def edit_defs(n_inits, size="full", sample=0):
+    small = size == "small"
+    return {"Inits": "{" + ", ".join(INITS[:n_inits]) + "}", "Kinds": KINDS[size][0], "RemKinds": KINDS[size][1], "Labels": '{"m","n"}',
             "MulNs": "{-1,0,1,2}" if not small else "{0,2}", "Slices": SLICES if not small else "{<<1,99,1>>, <<0,1,1>>, <<99,-1,1>>}",
             "Operands": OPERANDS, "NegInsert": "TRUE", "Sample": str(sample)}
 
@@ -226,8 +257,8 @@ EDIT_INVS = ["MkInBounds", "AtMostOneFinal", "ConvOK", "ExpandPaired"]
 def edit_plan(tier):
     """(name, wrapper constants, MaxSteps, simulate spec) of the PipelineGen runs."""
     if tier == "quick":
-        return [("exhaustive", edit_defs(4), 2, None), ("simulate", edit_defs(6, sample=5), 6, "num=400")]
-    return [("exhaustive", edit_defs(6), 2, None), ("exhaustive-deep", edit_defs(3, small=True), 3, None),
+        return [("exhaustive", edit_defs(4, "quick"), 2, None), ("simulate", edit_defs(6, sample=5), 6, "num=400")]
+    return [("exhaustive", edit_defs(6), 2, None), ("exhaustive-deep", edit_defs(3, "small"), 3, None),
             ("simulate", edit_defs(6, sample=5), 8, "num=30000")]
 
 
@@ -459,6 +490,114 @@ def syn_raw(stage, table, C, base):
     return f
 
 
+def cfg_raw(stage, table, maxfan, C, base):
+    """synthetic stage whose behaviour depends on a CONFIGURATION argument: sel = 1 selects the TLC table, the default
+    (sel = 0, what a stage sees when its configuration got lost) a decoy table that differs for every colour"""
+    key = ("cfg", stage, tuple(table), C, base)
+    f = _SYN.get(key)
+    if f is None:
+        decoy = [(x + 1) % (maxfan + 1) for x in table]
+
+        def syn(tape, sel=0):
+            tid, c = tape_ident(tape)
+            tbl = table if sel == 1 else decoy
+            kids = tuple(syn_tape(tid * base + j, (c + j) % C) for j in range(1, tbl[c] + 1))
+
+            def post(results):
+                return {"k": stage, "t": tid, "a": list(results), **({} if sel == 1 else {"lost-configuration": sel})}
+            return kids, post
+        syn.__name__ = f"cfg{stage}_{''.join(map(str, table))}"
+        f = _SYN[key] = syn
+    return f
+
+
+PLACEMENTS = ("constructor", "plus", "append", "add_transform", "insert")
+
+
+def place_configured(pair, rest, how, keyword):
+    """pipeline [expand(sel=1), pair(sel=1), *rest] built through one of the public ways, configuration positional or keyword"""
+    bound = pair(sel=1) if keyword else pair(1)
+    if how == "constructor":
+        return CompilePipeline(bound, *rest)
+    if how == "plus":
+        return (bound + rest[0] + CompilePipeline(*rest[1:])) if rest else (CompilePipeline() + bound)
+    if how == "append":
+        p = CompilePipeline()
+        p.append(bound)
+        p.extend(list(rest))
+        return p
+    if how == "add_transform":
+        p = CompilePipeline()
+        if keyword:
+            p.add_transform(pair, sel=1)
+        else:
+            p.add_transform(pair, 1)
+        p.extend(list(rest))
+        return p
+    p = CompilePipeline(*rest)
+    p.insert(0, bound)
+    return p
+
+
+# ---- classical cotransform: symbolic cases run through a real QNode and the real CotransformCache
+def ident2(tape):
+    return int(round(float(tape.operations[2].data[0]))), int(round(float(tape.operations[1].data[0])))
+
+
+def mk2(param, tid, c):
+    """tape whose trainable gate parameter is tid * x (x the QNode argument): its classical Jacobian d param / d x IS its identity"""
+    return qp.tape.QuantumScript([qp.RX(param, 0), qp.RY(float(c), 0), qp.RZ(float(tid), 0)], [qp.expval(qp.Z(0))], trainable_params=[0])
+
+
+def syn2_raw(stage, table, C, base):
+    def syn(tape):
+        tid, c = ident2(tape)
+        par = tape.operations[0].data[0]
+        kids = tuple(mk2(par * ((tid * base + j) / tid), tid * base + j, (c + j) % C) for j in range(1, table[c] + 1))
+
+        def post(results):
+            return {"k": stage, "t": tid, "a": list(results)}
+        return kids, post
+    syn.__name__ = f"syn{stage}_{''.join(map(str, table))}"
+    return syn
+
+
+def cot_tag(results, cjac, tape):
+    """classical cotransform of the synthetic gradient stage: records WHICH tape's classical Jacobian it was given"""
+    return {"k": 99, "t": int(round(float(np.asarray(qp.math.unwrap([cjac])[0]).reshape(-1)[0]))), "a": [results]}
+
+
+_COT_DEV = []
+
+
+def run_cot_case(case, C, base):
+    """last stage with a classical cotransform, on the single tape of a QNode with a trainable argument"""
+    from pennylane import numpy as pnp
+    if not _COT_DEV:
+        _COT_DEV.append(qp.device("default.qubit", wires=1))
+    c0 = case["batch"][0]
+
+    @qp.qnode(_COT_DEV[0])
+    def circ(x):
+        qp.RX(1 * x, 0)
+        qp.RY(float(c0), 0)
+        qp.RZ(1.0, 0)
+        return qp.expval(qp.Z(0))
+    q = circ
+    n = len(case["pipe"])
+    for s_, tbl in enumerate(case["pipe"]):
+        raw = syn2_raw(s_ + 1, tbl, C, base)
+        q = (transform(raw, classical_cotransform=cot_tag) if s_ == n - 1 else transform(raw))(q)
+    x = pnp.array(1.0, requires_grad=True)
+    tape = q.construct((x,), {})
+    q.compile_pipeline.set_classical_component(q, (x,), {})          # what QNode._impl_call does before execute
+    if q.compile_pipeline.cotransform_cache is None:
+        raise lib.MachineryError("set_classical_component did not install a CotransformCache")
+    batch, fn = q.compile_pipeline((tape,))
+    res = tuple({"k": 0, "t": ident2(t)[0], "a": []} for t in batch)
+    return list(fn(res)), [ident2(t)[0] for t in batch]
+
+
 def execute_tags(batch):
     return tuple({"k": 0, "t": tape_ident(t)[0], "a": []} for t in batch)
 
@@ -472,13 +611,26 @@ def by_hand_tape(tape, stages):
 
 
 def term_str(t):
+    if t["k"] == 99:
+        return f"J[{t['t']}]({term_str(t['a'][0])})"
     return f"E({t['t']})" if t["k"] == 0 else f"P{t['k']}[{t['t']}]({', '.join(term_str(a) for a in t['a'])})"
+
+
+def _walk_terms(ts):
+    for t in ts:
+        yield t
+        yield from _walk_terms(t["a"])
+
+
+def _strip_cot(ts):
+    """terms with the Jacobian owner of every classical node blanked (to tell a wrong Jacobian from wrong routing)"""
+    return [dict(t, t=0 if t["k"] == 99 else t["t"], a=_strip_cot(t["a"])) for t in ts]
 
 
 def stack_slices(fn):
     try:
-        st = fn.keywords["postprocessing_stack"]
-        return [[[s.start, s.stop] for s in f.keywords["slices"]] for f in st]
+        st = fn.keywords["postprocessing_stack"]      # (entries with integer "slices" are classical cotransform entries)
+        return [[[s.start, s.stop] for s in f.keywords["slices"]] for f in st if not any(isinstance(s, int) for s in f.keywords["slices"])]
     except Exception:  # noqa: BLE001  (mechanism not observable)
         return None
 
@@ -516,14 +668,37 @@ def run_apply(tier, seed, cov, viol, g, m):
         raise lib.MachineryError("application generator produced too few cases")
     bad = {}
     traces = []
-    nontriv, samples = 0, []
-    counts = {"fanout0": 0, "fanout_many": 0, "uneven_nested": 0, "empty_output": 0, "expand_pair_variants": 0, "by_hand": 0}
+    nontriv, samples, cot_samples = 0, [], []
+    counts = {"fanout0": 0, "fanout_many": 0, "uneven_nested": 0, "empty_output": 0, "expand_pair_variants": 0, "by_hand": 0,
+              "configured_expand_pair_positional": 0, "configured_expand_pair_keyword": 0, "classical_cotransform_cases": 0,
+              "classical_cotransform_with_several_tapes": 0}
+    placed = {h: 0 for h in PLACEMENTS}
 
     def differs(key, case, got, how):
         bad.setdefault(key, []).append({"case": {k: case[k] for k in ("pipe", "batch")}, "how": how, "got": got, "expected": case["exp"]})
 
     for ci, case in enumerate(cases):
         tables = case["pipe"]
+        if case["cot"]:
+            # classical cotransform on the last stage: run through a real QNode + CotransformCache (symbolic Jacobians)
+            counts["classical_cotransform_cases"] += 1
+            try:
+                got, leaves = run_cot_case(case, C, base)
+            except lib.MachineryError:
+                raise
+            except Exception as e:  # noqa: BLE001
+                differs("apply:cotransform-exception", case, f"{type(e).__name__}: {e}", "QNode pipeline with classical cotransform")
+                continue
+            njac = sum(1 for t in _walk_terms(case["exp"]) if t["k"] == 99)
+            counts["classical_cotransform_with_several_tapes"] += njac >= 2
+            if got != case["exp"]:
+                key = "apply:classical-jacobian-of-another-tape" if _strip_cot(got) == _strip_cot(case["exp"]) else \
+                    "apply:cotransform-pipeline-result-differs-from-reference-terms"
+                differs(key, case, got, "QNode pipeline, last stage with classical cotransform (Node 99 = chained with the Jacobian of tape t)")
+            if njac >= 2 and len(cot_samples) < 1:
+                cot_samples.append({"fanout_tables": tables, "last stage has a classical cotransform; J[t] = chained with the classical Jacobian of tape t":
+                                    [term_str(t) for t in case["exp"]]})
+            continue
         raws = [syn_raw(s + 1, tbl, C, base) for s, tbl in enumerate(tables)]
         ts = [transform(f) for f in raws]
         tapes = tuple(syn_tape(i + 1, c) for i, c in enumerate(case["batch"]))
@@ -592,6 +767,27 @@ def run_apply(tier, seed, cov, viol, g, m):
                 bh2.append(f_(tuple(by_hand_tape(k, ts[2:]) for k in kids)))
             if bh2 != case["exp"]:
                 differs("apply:by-hand-expand-pair-differs-from-reference-terms", case, bh2, "T(tape) with expand_transform")
+            # the same pair CONFIGURED (positionally / by keyword) with an argument both halves use
+            keyword = (ci // 5) % 3 == 2
+            how = PLACEMENTS[(ci // 3) % 5]
+            counts["configured_expand_pair_keyword" if keyword else "configured_expand_pair_positional"] += 1
+            placed[how] += 1
+            pairc = transform(cfg_raw(2, tables[1], maxfan, C, base), expand_transform=cfg_raw(1, tables[0], maxfan, C, base))
+            tag = f"{'keyword' if keyword else 'positional'}-configuration"
+            try:
+                pipe3 = place_configured(pairc, ts[2:], how, keyword)
+                ob3, fn3 = pipe3(tapes)
+                got3 = list(fn3(execute_tags(ob3)))
+                kids, f_ = pairc(tapes[0], sel=1) if keyword else pairc(tapes[0], 1)
+                bh3 = f_(tuple(by_hand_tape(k, ts[2:]) for k in kids))
+            except Exception as e:  # noqa: BLE001
+                differs(f"apply:configured-expand-pair:{tag}:exception", case, f"{type(e).__name__}: {e}", how)
+                continue
+            if got3 != case["exp"]:
+                differs(f"apply:configured-expand-pair:{tag}:pipeline-differs-from-reference-terms", case, got3,
+                        f"pipeline built by {how} from T({'sel=1' if keyword else '1'}) with expand_transform")
+            if bh3 != case["exp"][0]:
+                differs(f"apply:configured-expand-pair:{tag}:by-hand-differs-from-reference-terms", case, bh3, "T(tape, configuration)")
     # REPLAY comparator negative control: swap two leaves of an expected term
     cneg = copy.deepcopy(next(c for c in cases if len(c["leaves"]) >= 2 and len(c["pipe"]) >= 1))
     flat_terms = []
